@@ -369,6 +369,7 @@ class LazySocksEndpoint(object):
     def __init__(self, world, port):
         self.world = world
         self.port = port
+        self.host = '127.0.0.1'
         self.factory = None
         self.d = None
         self.wire = None
@@ -381,7 +382,7 @@ class LazySocksEndpoint(object):
 
     def establish(self):
         self.proto = self.factory.buildProtocol(None)
-        self.wire = self.world.wire(host=('127.0.0.1', self.port), peer=('127.0.0.1', 9050))
+        self.wire = self.world.wire(host=(self.host, self.port), peer=(self.host, 9050))
         self.wire.attach(self.proto)
         self.d.callback(self.proto)
 
@@ -422,7 +423,26 @@ def run_partB(order, variant):
         if variant == 'late-setconf-ack':
             # both connects start before Tor has answered the SETCONF that installs the circuit attacher
             impl.sim.hold_prefixes = ['SETCONF']
-        for k in (1, 2):
+        circ_of = {1: 1, 2: 2}
+        if variant == 'one-endpoint':
+            # ONE stream_via() endpoint (circuit 1) used for two connections (endpoints are reusable: a second request, a retry)
+            circ_of = {1: 1, 2: 1}
+            for k in (1, 2):
+                eps[k] = LazySocksEndpoint(w, ports[k])
+                facs[k] = AppFactory(log)
+
+            class Both(object):
+                n = 0
+
+                def connect(self, factory):
+                    self.n += 1
+                    return eps[self.n].connect(factory)
+            tep = st.circuits[1].stream_via(w.reactor, hosts[1], 80, Both())
+            hosts[2] = hosts[1]
+            for k in (1, 2):
+                recs[k] = DRec(tep.connect(facs[k]))
+                impl.sim.pump()
+        for k in (() if variant == 'one-endpoint' else (1, 2)):
             eps[k] = LazySocksEndpoint(w, ports[k])
             facs[k] = AppFactory(log)
             tep = st.circuits[k].stream_via(w.reactor, hosts[k], 80, eps[k])
@@ -431,6 +451,12 @@ def run_partB(order, variant):
         impl.sim.hold_prefixes = []
         impl.sim.pump()
         sid = {1: 11, 2: 12}
+        src = '127.0.0.1'
+        if variant == 'ipv6-socks':
+            # the SOCKS listener is on ::1 (SocksPort [::1]:9050): Tor prints the source address in brackets
+            src = '[::1]'
+            for k in (1, 2):
+                eps[k].host = '::1'
         attached_ack = {1: False, 2: False}
         for step in order:
             log.append(step)
@@ -443,7 +469,7 @@ def run_partB(order, variant):
             elif kind == 'M':
                 eps[k].wire.deliver(socks5.method_reply())
             elif kind == 'N':
-                impl.sim.event('STREAM %d NEW 0 %s:80 SOURCE_ADDR=127.0.0.1:%d PURPOSE=USER' % (sid[k], hosts[k], ports[k]))
+                impl.sim.event('STREAM %d NEW 0 %s:80 SOURCE_ADDR=%s:%d PURPOSE=USER' % (sid[k], hosts[k], src, ports[k]))
             elif kind == 'S':
                 if eps[k].wire.lost_seq is None:
                     eps[k].wire.deliver(socks5.reply(0, 1, bytes(4), 0))
@@ -472,7 +498,7 @@ def run_partB(order, variant):
         # later, an unrelated client connection re-uses the local address and port connection 1 had
         if 'N1' in order or variant == 'abandoned':
             log.append('R (source port of connection 1 re-used by an unrelated stream)')
-            impl.sim.event('STREAM 21 NEW 0 later.example:80 SOURCE_ADDR=127.0.0.1:%d PURPOSE=USER' % ports[1])
+            impl.sim.event('STREAM 21 NEW 0 later.example:80 SOURCE_ADDR=%s:%d PURPOSE=USER' % (src, ports[1]))
             impl.sim.pump()
         attach = [c for c in impl.sim.commands if c.startswith('ATTACHSTREAM')]
         reuse = [c for c in attach if c.split()[1] == '21']
@@ -491,7 +517,7 @@ def run_partB(order, variant):
                 if len(recs[1].fires) != 1 or recs[1].kind != 'err':
                     viol.append(('connect-outcome', 'socks-connection-lost-before-stream', 'connect() 1: %r' % (recs[1].summary(),)))
                 continue
-            if any(c.split()[2] == str(other) for c in mine):
+            if circ_of[k] != circ_of[other] and any(c.split()[2] == str(other) for c in mine):
                 viol.append(('attached-to-other-circuit', 'conn-%d' % k, 'stream %d of connection %d: %r' % (sid[k], k, mine)))
             died_first = closed1 and k == 1 and order.index('X') < order.index('N1')
             if k == 1 and closed1 and not died_first:
@@ -506,10 +532,10 @@ def run_partB(order, variant):
                 if len(recs[1].fires) != 1 or recs[1].kind != 'err':
                     viol.append(('connect-outcome', 'circuit-died-first', 'connect() 1: %r' % (recs[1].summary(),)))
                 continue
-            if mine != ['ATTACHSTREAM %d %d' % (sid[k], k)]:
-                viol.append(('via-circuit-attach', 'conn-%d/%s' % (k, 'none' if not mine else 'wrong'),
+            if mine != ['ATTACHSTREAM %d %d' % (sid[k], circ_of[k])]:
+                viol.append(('via-circuit-attach', 'conn-%d/%s%s' % (k, 'none' if not mine else 'wrong', '/endpoint-used-twice' if variant == 'one-endpoint' else ('/ipv6-socks-listener' if variant == 'ipv6-socks' else '')),
                              'order %r: stream %d (source port %d) decisions %r, reference ATTACHSTREAM %d %d'
-                             % (order, sid[k], ports[k], mine, sid[k], k)))
+                             % (order, sid[k], ports[k], mine, sid[k], circ_of[k])))
             r = recs[k]
             if len(r.fires) != 1 or r.kind != 'ok' or not facs[k].protos or r.value is not facs[k].protos[0]:
                 viol.append(('connect-outcome', 'conn-%d' % k, 'order %r: connect() %d -> %r (fired %d times)' % (order, k, r.summary(), len(r.fires))))
@@ -556,7 +582,7 @@ def tasks(tier, seed):
             out.append(('A', ans, dl))
     out.append(('book',))
     out.append(('prio',))
-    for variant in ('plain', 'same-host', 'same-port-other-host', 'late-setconf-ack', 'building', 'closing', 'abandoned', 'other-refused'):
+    for variant in ('plain', 'same-host', 'same-port-other-host', 'late-setconf-ack', 'building', 'closing', 'abandoned', 'other-refused', 'one-endpoint', 'ipv6-socks'):
         n = len(orders_for(variant, tier))
         per = 400
         for i in range(0, n, per):
